@@ -63,9 +63,10 @@ def run_impl(case, Event, hb, labels, objs=None):
     return [ev_view(e, labels) for e in hb.heartbeat_reduce(objs, p)]
 
 
-def oracle(case, out, Event, hb, labels):
+def oracle(case, out, Event, hb, labels, mk_event=mk_event):
     """The property statement, evaluated on the implementation's own answers.
-    An event of the case is (ts, dur, data) or (ts, dur, data, id): ids are carried along (round 3)."""
+    An event of the case is (ts, dur, data) or (ts, dur, data, id): ids are carried along (round 3).
+    `mk_event` (round 5): the constructor for the oracle's own events (txedge.mk_event near the ends of the datetime range)."""
     kind, p, evs = case
     P = pulse_us(p)
     if kind == "merge":
